@@ -87,6 +87,25 @@ def run(chk, replay=None):
                 if changed: chk.dist('leaves_redacted')
                 else: chk.dist('leaves_kept')
         chk.streams.append({'stream': 'selective mode, per-leaf bit, model vs implementation', 're': rx, 'cases': len(lines)})
+    # the regular expression as it travels through the command line: -z VALUE must reach the matcher unchanged, whatever characters it holds
+    import subprocess, tempfile, os, json as _json
+    names = ['last,first', 'last', 'first', 'ssn', 'aa', 'a', 'na me', 'x.y', 'xzy', 'q"uote', "it's", 'back\\slash', 'semi;colon', 'pi|pe', 'star*', '-dash', 'per%cent', 'caf\u00e9']
+    flt = {n: 'v%dZq' % i for i, n in enumerate(names)}
+    flt['arr'] = {'$in': ['w1Zq', {n: 'w%dZq' % i for i, n in enumerate(names[:6])}]}
+    wl = (_json.dumps({'t': {'$date': '2020-01-01T00:00:00.000+00:00'}, 's': 'I', 'c': 'COMMAND', 'id': 1, 'ctx': 'c', 'msg': 'Slow query', 'attr': {'ns': 'd.c', 'command': {'find': 'c', 'filter': flt, '$db': 'd'}}}, ensure_ascii=False) + '\n').encode()
+    rxs = ['^(last,first|ssn)$', '^a{1,2}$', 'na me', '^x\\.y$', '^x.y$', 'q"uote', "it's", 'back\\\\slash', 'semi;colon', 'pi\\|pe', 'star\\*', '^-dash$', 'per%cent', 'caf\u00e9', '^(ssn)$,^(aa)$', ' ssn', 'ssn ', '[,]', '(?i)LAST,FIRST', '^(?:a|aa)$']
+    with tempfile.TemporaryDirectory() as d:
+        f = os.path.join(d, 'in.log'); open(f, 'wb').write(wl)
+        for rx in rxs:
+            want = run_lines(Cfg(re=rx), [wl.rstrip(b'\n')])[0][0]
+            for form in (['-z', rx], ['--redactFieldsRegexp=' + rx]):
+                p = subprocess.run([CLI, 'redact', f] + form, stdin=subprocess.DEVNULL, capture_output=True)
+                chk.count(); chk.nontriv(('cli-regexp', rx, form[0][:3]))
+                got = p.stdout.rstrip(b'\n')
+                if p.returncode != 0 or not isinstance(want, bytes) or got != want:
+                    chk.violate('the regular expression given on the command line does not select like the same expression handed to the matcher', {'regexp': rx, 'form': form[0].split('=')[0], 'rc': p.returncode,
+                                'cli_output': got.decode('utf-8', 'replace')[:700], 'in_process_output': (want.decode('utf-8', 'replace') if isinstance(want, bytes) else str(want))[:700], 'stderr': p.stderr.decode('utf-8', 'replace')[-200:]}, tags=['cli', 'regexp'])
+    chk.streams.append({'stream': 'CLI: -z / --redactFieldsRegexp= with commas, blanks, quotes, backslashes, alternations vs the in-process matcher', 'regexps': len(rxs)})
     chk.sample({'re': families[0][0], 'input': lines[7].decode('utf-8', 'replace')[:500]})
     chk.assumptions += ["the regular expression is abstract in the model (a predicate on names); for the correspondence run it is tabulated with Go's regexp on every name of the case",
                         "Atlas Search stages may redact more (as the property states); the documented '$field' sibling rule counts as a matching name",
